@@ -41,10 +41,17 @@ def jobs(tier):
                     cfgs.append(c)
                 js.append(dict(name="%s/n%d/%s" % (e.name, n, gname), entry=e.name, backend="snarkjs", cfg=cfgs[0],
                                cfgs=cfgs, tier=tier, weight=(50 if heavy else 1) * n))
+    # how later calls are traced depends on the Python *type* of values read back: a fixed-point value is read back as a
+    # float whatever its value (an int for whole numbers would make the trace of the next @snark call depend on the value)
+    js.append(dict(name="fxp_val_obs/n8r2/readback-type", entry="fxp_val_obs", backend="snarkjs", catalogue="checks.cat_c14",
+                   analysis="obs", cfg=dict(n=8, r=2, guard=None, bound=(1 << 30)), tier=tier, weight=1))
     return js
 
 
 def run_job(env, spec):
+    if spec.get("analysis") == "obs":
+        from .obsjob import run_obs_job
+        return run_obs_job(spec.get("pid", PID), env, spec, lookup(spec), spec.get("catalogue"))
     entry = lookup(spec)
     job = Job(spec.get("pid", PID), env, spec, entry, spec.get("catalogue", "checks.catalogue"))
     H.STATS.__init__()
